@@ -438,3 +438,141 @@ func (p *Pilot) Misc() {
 		p.Tx("clp.decommission", u, &m)
 	}
 }
+
+// ---- transactions that FAIL INSIDE a handler, after a variable amount of gas-charged work ------
+// (GasUsed of a failed transaction is consensus-relevant: it is compared per transaction.)
+
+// FailingDistribution: passes ValidateBasic (an empty coin list is a valid sdk.Coins) but one record fails
+// DistributionRecord.Validate inside CreateDrops, after the records that precede it were read and written.
+func (p *Pilot) FailingDistribution() {
+	d := p.user()
+	n := 6 + p.R.Intn(10)
+	bad := p.R.Intn(n)
+	var outs []banktypes.Output
+	for i := 0; i < n; i++ {
+		to := NewAcct(p.W.Seed, fmt.Sprintf("faildrop-%d-%d", p.Height(), i)).Addr
+		if p.R.Chance(1, 3) {
+			to = p.user().Addr
+		}
+		cs := sdk.NewCoins(coin("rowan", new(big.Int).Mul(big.NewInt(int64(1+p.R.Intn(50))), pow10(18))))
+		if i == bad {
+			to = NewAcct(p.W.Seed, fmt.Sprintf("faildrop-empty-%d", p.Height())).Addr
+			cs = sdk.Coins{}
+		}
+		outs = append(outs, banktypes.NewOutput(to, cs))
+	}
+	m := disptypes.NewMsgCreateDistribution(d.Addr, disptypes.DistributionType_DISTRIBUTION_TYPE_AIRDROP, outs, p.user().Addr.String())
+	p.Tx("disp.create.emptycoins", d, &m)
+}
+
+// FailingShape: one failing transaction of a random kind; every module the history exercises has several.
+func (p *Pilot) FailingShape() {
+	ps := p.pools()
+	u := p.user()
+	huge := sdk.NewUintFromString("100000000000000000000000000000000000000")
+	switch p.R.Intn(16) {
+	case 0, 1, 2:
+		p.FailingDistribution()
+	case 3: // dispensation: run by somebody who is not the authorised runner (iterates the records first)
+		if len(p.dists) > 0 {
+			d := p.dists[p.R.Intn(len(p.dists))]
+			m := disptypes.NewMsgRunDistribution(u.Addr.String(), d.name, d.typ, 10)
+			p.Tx("disp.run.wrongrunner", u, &m)
+		}
+	case 4: // dispensation: distribution whose total exceeds the distributor's balance (fails after the distribution is stored)
+		outs := []banktypes.Output{banktypes.NewOutput(p.user().Addr, sdk.NewCoins(coin("rowan", new(big.Int).Mul(big.NewInt(1), pow10(30))))),
+			banktypes.NewOutput(p.user().Addr, sdk.NewCoins(coin("ceth", pow10(18))))}
+		m := disptypes.NewMsgCreateDistribution(u.Addr, disptypes.DistributionType_DISTRIBUTION_TYPE_AIRDROP, outs, u.Addr.String())
+		p.Tx("disp.create.nofunds", u, &m)
+	case 5: // clp: swap whose output is below the requested minimum (fails after pool reads and the calculation)
+		if len(ps) > 0 {
+			a := ps[p.R.Intn(len(ps))]
+			m := clptypes.NewMsgSwap(u.Addr, clptypes.GetSettlementAsset(), *a.ExternalAsset, frac(a.NativeAssetBalance, 1, 1000), huge)
+			p.Tx("clp.swap.belowmin", u, &m)
+		}
+	case 6: // clp: remove more units than held
+		if len(ps) > 0 {
+			a := ps[p.R.Intn(len(ps))]
+			m := clptypes.NewMsgRemoveLiquidityUnits(u.Addr, *a.ExternalAsset, huge)
+			p.Tx("clp.removeunits.toomany", u, &m)
+		}
+	case 7: // clp: add liquidity the sender cannot pay (fails at the bank after the unit calculation)
+		if len(ps) > 0 {
+			a := ps[p.R.Intn(len(ps))]
+			m := clptypes.NewMsgAddLiquidity(u.Addr, *a.ExternalAsset, huge, huge)
+			p.Tx("clp.add.nofunds", u, &m)
+		}
+	case 8: // clp: pool for a token without a registry entry / a pool that exists
+		m := clptypes.NewMsgCreatePool(u.Addr, clptypes.NewAsset([]string{"cnotregistered", "ceth"}[p.R.Intn(2)]), uintOf(new(big.Int).Mul(big.NewInt(2000), pow10(18))), uintOf(pow10(18)))
+		p.Tx("clp.create.refused", u, &m)
+	case 9: // clp: unlock more units than held; bucket contribution the sender cannot pay
+		if len(ps) > 0 && p.R.Bool() {
+			a := ps[p.R.Intn(len(ps))]
+			m := clptypes.MsgUnlockLiquidityRequest{Signer: u.Addr.String(), ExternalAsset: a.ExternalAsset, Units: huge}
+			p.Tx("clp.unlock.toomany", u, &m)
+		} else {
+			m := clptypes.NewMsgAddLiquidityToRewardsBucketRequest(u.Addr.String(), sdk.NewCoins(coin("ceth", pow10(17)), coin("rowan", new(big.Int).Mul(big.NewInt(1), pow10(30)))))
+			p.Tx("clp.bucket.nofunds", u, m)
+		}
+	case 10: // bridge: a second claim by a validator that already claimed / a claim on a finalised prophecy
+		if p.nonce > 0 {
+			v := p.R.Intn(len(p.W.Vals))
+			p.claim(v, 1+int64(p.R.Intn(int(p.nonce))), p.user().Addr, int64(1+p.R.Intn(5000)), "bridge.claim.again")
+		}
+	case 11: // bridge: burn more than held; lock with too little ceth for the fee
+		if p.R.Bool() {
+			m := ethbridgetypes.NewMsgBurn(1, u.Addr, ethSender, sdk.NewIntFromBigInt(pow10(30)), "ceth", sdk.NewIntFromBigInt(new(big.Int).Mul(big.NewInt(70), pow10(15))))
+			p.Tx("bridge.burn.nofunds", u, &m)
+		} else {
+			m := ethbridgetypes.NewMsgLock(1, u.Addr, ethSender, sdk.NewIntFromBigInt(pow10(18)), "rowan", sdk.NewInt(1))
+			p.Tx("bridge.lock.lowfee", u, &m)
+		}
+	case 12: // margin: borrow more than the pool holds / position too small for interest payments
+		pool := []string{"ceth", "cusdc"}[p.R.Intn(2)]
+		amt := huge
+		if p.R.Bool() {
+			amt = sdk.NewUint(uint64(1 + p.R.Intn(5)))
+		}
+		m := margintypes.MsgOpen{Signer: u.Addr.String(), CollateralAsset: "rowan", CollateralAmount: amt, BorrowAsset: pool,
+			Position: margintypes.Position_LONG, Leverage: sdk.MustNewDecFromStr("2.0")}
+		p.Tx("margin.open.refused", u, &m)
+	case 13: // margin: close / force-close a position that does not exist; open on a pool without margin
+		switch p.R.Intn(3) {
+		case 0:
+			m := margintypes.MsgClose{Signer: u.Addr.String(), Id: uint64(1000 + p.R.Intn(1000))}
+			p.Tx("margin.close.missing", u, &m)
+		case 1:
+			m := margintypes.MsgForceClose{Signer: p.W.Admin.Addr.String(), MtpAddress: u.Addr.String(), Id: uint64(1000 + p.R.Intn(1000))}
+			p.Tx("margin.forceclose.missing", p.W.Admin, &m)
+		default:
+			m := margintypes.MsgOpen{Signer: u.Addr.String(), CollateralAsset: "rowan", CollateralAmount: uintOf(new(big.Int).Mul(big.NewInt(10), pow10(18))), BorrowAsset: "cdai",
+				Position: margintypes.Position_LONG, Leverage: sdk.MustNewDecFromStr("2.0")}
+			p.Tx("margin.open.disabledpool", u, &m)
+		}
+	case 14: // privileged messages from a user (fail at the role check, after the role table was read)
+		switch p.R.Intn(3) {
+		case 0:
+			m := trtypes.MsgRegister{From: u.Addr.String(), Entry: &trtypes.RegistryEntry{Denom: "cuser", BaseDenom: "cuser", Decimals: 6}}
+			p.Tx("registry.register.notadmin", u, &m)
+		case 1:
+			m := admintypes.MsgAddAccount{Signer: u.Addr.String(), Account: &admintypes.AdminAccount{AdminType: admintypes.AdminType_ADMIN, AdminAddress: u.Addr.String()}}
+			p.Tx("admin.add.notadmin", u, &m)
+		default:
+			m := ethbridgetypes.NewMsgUpdateWhiteListValidator(u.Addr, sdk.ValAddress(p.W.Vals[0].Addr), "remove")
+			p.Tx("bridge.whitelist.notadmin", u, &m)
+		}
+	default: // a transaction of two messages whose second fails: the first one's work is charged and rolled back
+		v := p.user()
+		ok := banktypes.NewMsgSend(u.Addr, v.Addr, sdk.NewCoins(coin("rowan", pow10(18))))
+		if len(ps) > 0 {
+			a := ps[p.R.Intn(len(ps))]
+			bad := clptypes.NewMsgRemoveLiquidityUnits(u.Addr, *a.ExternalAsset, huge)
+			add := clptypes.NewMsgAddLiquidity(u.Addr, *a.ExternalAsset, frac(a.NativeAssetBalance, 1, 1000), frac(a.ExternalAssetBalance, 1, 1000))
+			if p.R.Bool() {
+				p.Tx("multi.send+removeunits.toomany", u, ok, &bad)
+			} else {
+				p.Tx("multi.add+removeunits.toomany", u, &add, &bad)
+			}
+		}
+	}
+}
